@@ -189,6 +189,9 @@ class StreamParser(Parser):
         if self.at('[') and self.peek(1)[0] == 'num' and self.at(';', 2):
             self.eat('['); self.eat(); self.eat(';'); self.eat(); self.eat(']')
             return ('arrayrep',)
+        if self.at('(') and self.at(')', 1):
+            self.eat(); self.eat()
+            return ('unit',)
         return super().primary(nostruct)
 
 
@@ -289,6 +292,122 @@ class Stream:
         raise Untranslatable('expression %s' % k)
 
 
+class SerStream:
+    """`CanonicalSerialize::{serialized_size, serialize_with_mode}` of `Encoding`, `Element`, `AffinePoint` on denotations: the
+    writer is the list of bytes written to it (a writer that accepts every byte), `mode` a Boolean; `self` is the byte list `b`
+    (for `Encoding`) or the abstract element `e` with its encoder `enc`; `x.serialize_with_mode(writer, mode)` on an encoding
+    refers to the `Encoding` form (assume-guarantee): it writes the 32 bytes."""
+
+    def size(self, stmts, env):
+        if len(stmts) == 1 and stmts[0][0] == 'expr' and stmts[0][1][0] == 'modematch':
+            _, var, yes, no = stmts[0][1]
+            if env.get(var, (None, None))[1] != 'mode':
+                raise Untranslatable('mode match on %s' % var)
+            def arm(a):
+                if a == 'panic':
+                    return '.error .panic'
+                if isinstance(a, tuple) and a[0] == 'num':
+                    return '.ok %s' % int(re.match(r'\d+', str(a[1])).group())
+                raise Untranslatable('size arm')
+            return '(if %s then %s else %s)' % (env[var][0], arm(yes), arm(no))
+        if len(stmts) == 1 and stmts[0][0] == 'expr' and stmts[0][1][0] == 'num':
+            return '(.ok %s)' % int(re.match(r'\d+', str(stmts[0][1][1])).group())
+        raise Untranslatable('size body')
+
+    def ev(self, e, env):
+        k = e[0]
+        if k == 'path':
+            if e[1] in env:
+                return env[e[1]]
+            raise Untranslatable('name %s' % e[1])
+        if k == 'un' and e[1] in ('&', '*'):
+            return self.ev(e[2], env)
+        if k == 'field' and e[2] == '0':
+            v, t = self.ev(e[1], env)
+            if t == 'enc':
+                return (v, 'arr')
+        if k == 'index' and e[2] == ('fullrange',):
+            v, t = self.ev(e[1], env)
+            if t == 'arr':
+                return (v, t)
+        if k == 'method':
+            v, t = self.ev(e[1], env)
+            name = e[2]
+            if name in ('into', 'into_group', 'into_affine', 'clone') and t == 'elem' and not e[3]:
+                return (v, t)
+            if name in ('vartime_compress', 'compress') and t == 'elem' and not e[3]:
+                return ('(enc %s)' % v, 'enc')
+            if name == 'write_all' and t == 'writer' and len(e[3]) == 1:
+                a, ta = self.ev(e[3][0], env)
+                if ta == 'arr':
+                    return (a, 'written')
+            if name in ('serialize_with_mode', 'serialize_compressed') and t == 'enc':
+                args = [self.ev(x, env) for x in e[3]]
+                if args and args[0][1] == 'writer' and all(a[1] == 'mode' for a in args[1:]):
+                    return ('(.ok %s)' % v, 'res')
+            raise Untranslatable('method .%s on %s' % (name, t))
+        if k == 'try':
+            v, t = self.ev(e[1], env)
+            if t == 'written':
+                return (v, 'wrote')
+            raise Untranslatable('? on %s' % t)
+        if k == 'call' and e[1][0] == 'path' and e[1][1] == 'Ok' and len(e[2]) == 1 and e[2][0] in (('tuple', []), ('unit',)):
+            return (None, 'okunit')
+        raise Untranslatable('expression %s' % k)
+
+    def run(self, stmts, env, out=None):
+        if not stmts:
+            raise Untranslatable('no result')
+        s, rest = stmts[0], stmts[1:]
+        k = s[0]
+        if k == 'let' and s[1][0] == 'pname' and s[2] is not None:
+            v, t = self.ev(s[2], env)
+            if t not in ('elem', 'enc', 'arr'):
+                raise Untranslatable('let of %s' % t)
+            return self.run(rest, dict(env, **{s[1][1]: (v, t)}), out)
+        if k == 'expr' and rest:
+            v, t = self.ev(s[1], env)
+            if t == 'wrote' and out is None:
+                return self.run(rest, env, v)
+            raise Untranslatable('statement of %s' % t)
+        if k == 'expr':
+            v, t = self.ev(s[1], env)
+            if t == 'res' and out is None:
+                return v
+            if t == 'okunit' and out is not None:
+                return '(.ok %s)' % out
+            if t == 'written' and out is None:
+                return '(.ok %s)' % v
+            raise Untranslatable('tail of type %s' % t)
+        raise Untranslatable('statement %s' % k)
+
+
+def fn_body(body, pat):
+    f = re.search(pat, body)
+    if not f:
+        return None
+    depth, e = 1, f.end()
+    while depth:
+        depth += body[e] == '{'
+        depth -= body[e] == '}'
+        e += 1
+    return f, body[f.end() - 1:e]
+
+
+def ser_impls(src):
+    for m in re.finditer(r'\bimpl\s+(?:\w+::)*CanonicalSerialize\s+for\s+(Encoding|Element|AffinePoint)\s*\{', src):
+        depth, j = 1, m.end()
+        while depth:
+            depth += src[j] == '{'
+            depth -= src[j] == '}'
+            j += 1
+        body = src[m.end():j - 1]
+        line = src[:m.start()].count('\n') + 1
+        size = fn_body(body, r'\bfn\s+serialized_size\s*\(\s*&self\s*,\s*(\w+)\s*:[^)]*\)[^{]*\{')
+        ser = fn_body(body, r'\bfn\s+serialize_with_mode\s*<[^>]*>\s*\(\s*&self\s*,\s*(?:mut\s+)?(\w+)\s*:\s*W\s*,\s*(\w+)\s*:[^)]*\)[^{]*\{')
+        yield m.group(1), line, size, ser
+
+
 def stream_impls(src):
     for m in re.finditer(r'\bimpl\s+(?:\w+::)*CanonicalDeserialize\s+for\s+(Encoding|Element|AffinePoint)\s*\{', src):
         depth, j = 1, m.end()
@@ -383,6 +502,39 @@ def main():
                 report['forms'][rel] += 1
             except (Untranslatable, IndexError, KeyError, TypeError) as ex:
                 report['untranslated'].append('%s: %s' % (label, ex))
+    sers = {'serSize': [], 'serEncoding': [], 'serElement': []}
+    for rel in STREAM_FILES:
+        try:
+            src = open(os.path.join(repo, rel)).read()
+        except OSError:
+            continue
+        for target, line, size, ser in ser_impls(src):
+            label = '%s:%d CanonicalSerialize for %s' % (rel, line, target)
+            selfv = ('b', 'enc') if target == 'Encoding' else ('e', 'elem')
+            try:
+                if size is None:
+                    raise Untranslatable('no serialized_size')
+                f, body = size
+                v = SerStream().size(StreamParser(tokenize(body)).block(), {f.group(1): ('compress', 'mode')})
+                sers['serSize'].append((label + ' serialized_size', 'fun compress => %s' % v))
+                report['forms'].setdefault(rel, 0)
+                report['forms'][rel] += 1
+            except (Untranslatable, IndexError, KeyError, TypeError) as ex:
+                report['untranslated'].append('%s serialized_size: %s' % (label, ex))
+            try:
+                if ser is None:
+                    raise Untranslatable('no serialize_with_mode')
+                f, body = ser
+                v = SerStream().run(StreamParser(tokenize(body)).block(),
+                                    {'self': selfv, f.group(1): ('w', 'writer'), f.group(2): ('mode', 'mode')})
+                if target == 'Encoding':
+                    sers['serEncoding'].append((label + ' serialize_with_mode', 'fun mode b => %s' % v))
+                else:
+                    sers['serElement'].append((label + ' serialize_with_mode', 'fun enc mode e => %s' % v))
+                report['forms'].setdefault(rel, 0)
+                report['forms'][rel] += 1
+            except (Untranslatable, IndexError, KeyError, TypeError) as ex:
+                report['untranslated'].append('%s serialize_with_mode: %s' % (label, ex))
     ty = {'decodeSlice': '(List Nat → Except ε α) → ε → ε → List Nat → Except ε α', 'decodeFixed': '(List Nat → Except ε α) → List Nat → Except ε α',
           'encodingOfSlice': 'ε → ε → List Nat → Except ε (List Nat)', 'encode': '(α → List Nat) → α → List Nat', 'bytes': 'List Nat → List Nat'}
     parts = ['/- GENERATED by translator/extract_convforms.py from the Rust sources of the repository; do not edit. -/', '',
@@ -401,6 +553,18 @@ def main():
     parts.append('def deserElementForms : List (String × ((List Nat → Except ε α) → Bool → Bool → List Nat → Except SerErr α)) := [')
     parts.append(',\n'.join('  ("%s", %s)' % (l, f) for l, f in streams['deserElement']))
     parts.append(']\n')
+    parts.append('/-- `CanonicalSerialize::serialized_size` (compress = Yes) -/')
+    parts.append('def serSizeForms : List (String × (Bool → Except SerErr Nat)) := [')
+    parts.append(',\n'.join('  ("%s", %s)' % (l, f) for l, f in sers['serSize']))
+    parts.append(']\n')
+    parts.append('/-- `CanonicalSerialize for Encoding`: the bytes written to an accepting writer -/')
+    parts.append('def serEncodingForms : List (String × (Bool → List Nat → Except SerErr (List Nat))) := [')
+    parts.append(',\n'.join('  ("%s", %s)' % (l, f) for l, f in sers['serEncoding']))
+    parts.append(']\n')
+    parts.append('/-- `CanonicalSerialize for Element | AffinePoint` over the encoder `enc` -/')
+    parts.append('def serElementForms : List (String × ((α → List Nat) → Bool → α → Except SerErr (List Nat))) := [')
+    parts.append(',\n'.join('  ("%s", %s)' % (l, f) for l, f in sers['serElement']))
+    parts.append(']\n')
     if report['untranslated']:
         parts.append('/- forms outside the translator\'s grammar (tied by the correspondence check only):')
         parts += ['   ' + u.replace('-/', '- /') for u in report['untranslated']]
@@ -412,6 +576,7 @@ def main():
         open(out, 'w').write(text)
     report['counts'] = {k: len(v) for k, v in lists.items()}
     report['counts'].update({k: len(v) for k, v in streams.items()})
+    report['counts'].update({k: len(v) for k, v in sers.items()})
     json.dump(report, open(os.path.splitext(out)[0] + '.index.json', 'w'), indent=1, sort_keys=True)
     print('convforms: %s translated, %d untranslated' % (report['counts'], len(report['untranslated'])))
 
